@@ -950,6 +950,7 @@ func main() {
 	b.WriteString("]\n\n")
 	b.WriteString("/-- `IsCompressed` is false exactly for these -/\n")
 	fmt.Fprintf(&b, "def uncompressedTypes : List String := %s\n\n", leanStrList(uncompressed))
+	b.WriteString(poolShape(repo))
 	b.WriteString("end OtelVerif.Gen.Compression\n")
 	_ = typeOrder
 	fmt.Print(b.String())
@@ -999,4 +1000,230 @@ func constProduct(e ast.Expr) string {
 	}
 	die("defaultMaxRequestBodySize is not a product of integer literals")
 	return ""
+}
+
+// ---- client-side writer pools (compressor.go) ----
+
+func exprStr(e ast.Expr) string {
+	switch x := e.(type) {
+	case *ast.Ident:
+		return x.Name
+	case *ast.SelectorExpr:
+		return exprStr(x.X) + "." + x.Sel.Name
+	case *ast.CallExpr:
+		var as []string
+		for _, a := range x.Args {
+			as = append(as, exprStr(a))
+		}
+		return exprStr(x.Fun) + "(" + strings.Join(as, ",") + ")"
+	case *ast.TypeAssertExpr:
+		return exprStr(x.X) + ".(" + exprStr(x.Type) + ")"
+	case *ast.BinaryExpr:
+		return exprStr(x.X) + x.Op.String() + exprStr(x.Y)
+	case *ast.CompositeLit:
+		var as []string
+		for _, a := range x.Elts {
+			as = append(as, exprStr(a))
+		}
+		return exprStr(x.Type) + "{" + strings.Join(as, ",") + "}"
+	case *ast.IndexExpr:
+		return exprStr(x.X) + "[" + exprStr(x.Index) + "]"
+	case *ast.ArrayType:
+		return "[]" + exprStr(x.Elt)
+	case *ast.UnaryExpr:
+		return x.Op.String() + exprStr(x.X)
+	case *ast.BasicLit:
+		return x.Value
+	}
+	return "?"
+}
+
+// stmtToken names one statement of `compress` (and of the block guarded by `body != nil`); anything else is a shape failure
+func stmtTokens(st ast.Stmt) []string {
+	switch x := st.(type) {
+	case *ast.AssignStmt:
+		if len(x.Rhs) == 1 {
+			switch exprStr(x.Rhs[0]) {
+			case "p.pool.Get().(writeCloserReset)":
+				if exprStr(x.Lhs[0]) == "writer" {
+					return []string{"get"}
+				}
+			case "io.Copy(writer,body)":
+				if len(x.Lhs) == 2 && exprStr(x.Lhs[1]) == "copyErr" {
+					return []string{"copy"}
+				}
+			case "body.Close()":
+				if exprStr(x.Lhs[0]) == "closeErr" {
+					return []string{"closeBody"}
+				}
+			}
+		}
+	case *ast.DeferStmt:
+		if exprStr(x.Call) == "p.pool.Put(writer)" {
+			return []string{"deferPut"}
+		}
+	case *ast.ExprStmt:
+		if exprStr(x.X) == "writer.Reset(buf)" {
+			return []string{"reset"}
+		}
+	case *ast.ReturnStmt:
+		if len(x.Results) == 1 {
+			switch exprStr(x.Results[0]) {
+			case "writer.Close()":
+				return []string{"retCloseWriter"}
+			case "copyErr":
+				return []string{"retCopyErr"}
+			case "closeErr":
+				return []string{"retCloseErr"}
+			}
+		}
+	case *ast.IfStmt:
+		if x.Init == nil && x.Else == nil {
+			c := exprStr(x.Cond)
+			var inner []string
+			for _, s := range x.Body.List {
+				inner = append(inner, stmtTokens(s)...)
+			}
+			switch c {
+			case "body!=nil":
+				return append(append([]string{"ifBody["}, inner...), "]")
+			case "copyErr!=nil":
+				if len(inner) == 1 && inner[0] == "retCopyErr" {
+					return []string{"retCopyErr"}
+				}
+			case "closeErr!=nil":
+				if len(inner) == 1 && inner[0] == "retCloseErr" {
+					return []string{"retCloseErr"}
+				}
+			}
+		}
+	}
+	die("compress: statement of unknown shape")
+	return nil
+}
+
+func poolShape(repo string) string {
+	cf := parse(filepath.Join(repo, "config/confighttp/compressor.go"))
+	var b strings.Builder
+	// 1. compress
+	cm := funcDecl(cf, "compressor", "compress")
+	var steps []string
+	for _, st := range cm.Body.List {
+		steps = append(steps, stmtTokens(st)...)
+	}
+	// the pool is touched nowhere else in the package's non-test files
+	poolUses := 0
+	files, _ := filepath.Glob(filepath.Join(repo, "config/confighttp/*.go"))
+	for _, fn := range files {
+		if strings.HasSuffix(fn, "_test.go") {
+			continue
+		}
+		f := parse(fn)
+		ast.Inspect(f, func(n ast.Node) bool {
+			if se, ok := n.(*ast.SelectorExpr); ok && se.Sel.Name == "pool" {
+				poolUses++
+			}
+			return true
+		})
+	}
+	// 2. the key and newCompressor
+	var keyFields []string
+	for _, d := range cf.Decls {
+		gd, ok := d.(*ast.GenDecl)
+		if !ok || gd.Tok != token.TYPE {
+			continue
+		}
+		for _, sp := range gd.Specs {
+			ts := sp.(*ast.TypeSpec)
+			if st, ok := ts.Type.(*ast.StructType); ok && ts.Name.Name == "compressionMapKey" {
+				for _, fl := range st.Fields.List {
+					for _, n := range fl.Names {
+						keyFields = append(keyFields, n.Name)
+					}
+				}
+			}
+		}
+	}
+	if len(keyFields) == 0 {
+		die("compressionMapKey: no fields")
+	}
+	nc := funcDecl(cf, "", "newCompressor")
+	var params []string
+	for _, f := range nc.Type.Params.List {
+		for _, n := range f.Names {
+			params = append(params, n.Name)
+		}
+	}
+	keyed, locked, ctorOwnKey, lookup, store, newFromCtor := false, false, false, false, false, false
+	if len(nc.Body.List) >= 2 {
+		if es, ok := nc.Body.List[0].(*ast.ExprStmt); ok && exprStr(es.X) == "compressorPoolsMu.Lock()" {
+			if ds, ok := nc.Body.List[1].(*ast.DeferStmt); ok && exprStr(ds.Call) == "compressorPoolsMu.Unlock()" {
+				locked = true
+			}
+		}
+	}
+	ast.Inspect(nc, func(n ast.Node) bool {
+		switch x := n.(type) {
+		case *ast.AssignStmt:
+			if len(x.Lhs) >= 1 && len(x.Rhs) == 1 {
+				l, r := exprStr(x.Lhs[0]), exprStr(x.Rhs[0])
+				if l == "mapKey" && r == "compressionMapKey{"+strings.Join(params, ",")+"}" && len(params) == len(keyFields) {
+					keyed = true
+				}
+				if r == "compressorPools[mapKey]" {
+					lookup = true
+				}
+				if l == "compressorPools[mapKey]" && r == "c" {
+					store = true
+				}
+				if l == "f" && r == "newWriteCloserResetFunc("+strings.Join(params, ",")+")" {
+					ctorOwnKey = true
+				}
+			}
+		case *ast.FuncLit:
+			if len(x.Body.List) == 1 {
+				if rs, ok := x.Body.List[0].(*ast.ReturnStmt); ok && len(rs.Results) == 1 && exprStr(rs.Results[0]) == "f()" {
+					newFromCtor = true
+				}
+			}
+		}
+		return true
+	})
+	// 3. RoundTrip / newCompressRoundTripper
+	cc := parse(filepath.Join(repo, "config/confighttp/compression.go"))
+	rt := funcDecl(cc, "compressRoundTripper", "RoundTrip")
+	freshBuf, compressCall := false, false
+	ast.Inspect(rt, func(n ast.Node) bool {
+		switch x := n.(type) {
+		case *ast.AssignStmt:
+			if len(x.Lhs) == 1 && len(x.Rhs) == 1 && exprStr(x.Lhs[0]) == "buf" && x.Tok == token.DEFINE && strings.HasPrefix(exprStr(x.Rhs[0]), "bytes.NewBuffer(") {
+				freshBuf = true
+			}
+			if len(x.Rhs) == 1 && exprStr(x.Rhs[0]) == "r.compressor.compress(buf,req.Body)" {
+				compressCall = true
+			}
+		}
+		return true
+	})
+	nrt := funcDecl(cc, "", "newCompressRoundTripper")
+	ownKey := false
+	ast.Inspect(nrt, func(n ast.Node) bool {
+		if ce, ok := n.(*ast.CallExpr); ok && exprStr(ce) == "newCompressor(compressionType,compressionParams)" {
+			ownKey = true
+		}
+		return true
+	})
+	b.WriteString("\n/-- `compressor.compress` (compressor.go), statement by statement; `ifBody[ … ]` = the block guarded by `body != nil` -/\n")
+	fmt.Fprintf(&b, "def compressSteps : List String := %s\n", leanStrList(steps))
+	b.WriteString("/-- number of places a `.pool` selector occurs in the package's non-test files (exactly the Get and the deferred Put of `compress`) -/\n")
+	fmt.Fprintf(&b, "def poolSelectorUses : Nat := %d\n", poolUses)
+	b.WriteString("/-- `compressionMapKey` fields; `newCompressor`: key built from ALL its parameters, map lookup and store under that key, under `compressorPoolsMu`,\nwriter constructor made for that very (type, params), `sync.Pool.New` calls it -/\n")
+	fmt.Fprintf(&b, "def poolKeyFields : List String := %s\n", leanStrList(keyFields))
+	fmt.Fprintf(&b, "def poolKeyedByTypeAndParams : Bool := %v\n", keyed && lookup && store)
+	fmt.Fprintf(&b, "def poolMapUnderMutex : Bool := %v\n", locked)
+	fmt.Fprintf(&b, "def poolNewUsesKeyConstructor : Bool := %v\n", ctorOwnKey && newFromCtor)
+	b.WriteString("/-- `RoundTrip` compresses into a buffer allocated for this request; `newCompressRoundTripper` asks for the compressor of its own (type, params) -/\n")
+	fmt.Fprintf(&b, "def roundTripFreshBuffer : Bool := %v\n", freshBuf && compressCall)
+	fmt.Fprintf(&b, "def roundTripperUsesOwnKey : Bool := %v\n\n", ownKey)
+	return b.String()
 }
